@@ -396,10 +396,11 @@ def _check_for_modified_notes(
         if note.modify_date != today and note_has_changed:
             note.modify_date = today
             modify_short_date = zdt.to_short_date_spec(dt.date.today())
-            # If the modify date is the same as the create date, then no modify
-            # date spec should exist yet...
+            # If the note's text does not start with a modify date spec yet
+            # (whatever the previously indexed note looked like)...
             assert old_note is not None
-            if old_note.modify_date == note.create_date:
+            first_word = note.body.lstrip().split(" ")[0]
+            if not zdt.is_short_date_spec(first_word):
                 old_body = f"{note.body.lstrip()}"
             # Otherwise, we need to remove the old modify date spec before
             # adding the new one.
